@@ -148,7 +148,10 @@ func genEdits(r *rand.Rand, g *SpecGen, marker string, nonEmpty bool) specs.Cont
 				case len(g.HostNodes) > 0 && chance(r, 60):
 					// info to be taken from a host node
 					h := g.HostNodes[r.Intn(len(g.HostNodes))]
-					switch r.Intn(6) {
+					switch r.Intn(7) {
+					case 4:
+						// the host path spelled out although it is the container path
+						d.Path, d.HostPath = h.Path, h.Path
 					case 0:
 						d.HostPath = h.Path
 					case 1:
